@@ -114,7 +114,7 @@ theorem step_trans_pushSlice (w : Wf cfg s) (h : Nat) (bs : List UInt8) :
           have hge := growCap_ge x.cap (x.data.take (off + len) ++ bs).length
           have t2 := trans_write (held := none) (p := some o) (b := s.nextBuf)
             (c := growCap x.cap (x.data.take (off + len) ++ bs).length) ⟨_, hx2, hl, rfl, rfl⟩
-            (off + len) (off + len + bs.length) (Nat.le_add_right _ _) (by omega) (Or.inl (growCap_pos _ _))
+            (off + len) (off + len + bs.length) (Nat.le_add_right _ _) (by omega) (growCap_pos _ _)
           exact t1.trans t2
       · simp only [hu]; exact hre
 
@@ -199,6 +199,7 @@ theorem step_trans_intoVec (w : Wf cfg s) (h : Nat) :
         have t1 := trans_copyAlloc s (view s hd).length
         simp only [gt_iff_lt, hl, if_true] at t1
         have t2 := trans_heldExport { s with nextBuf := s.nextBuf + 1 } s.nextBuf (view s hd).length
+        simp only [gt_iff_lt, hl, if_true] at t2
         exact ((t1.trans t2).trans tdrop).then_quiet (fun _ => rfl) (Nat.le_refl _)
       · simp only [gt_iff_lt, hl, if_false]
         have t0 : Trans s none (dropRepr cfg { s with nextBuf := s.nextBuf + 1 } hd.repr).2
@@ -216,7 +217,7 @@ theorem step_trans_intoVec (w : Wf cfg s) (h : Nat) :
       simp only [hx]
       by_cases hcond : (off == 0 && ownerUnique cfg s o) = true
       · simp only [hcond, if_true]
-        have t : Trans s none [Event.freeInner o, Event.exportBuf x.buf]
+        have t : Trans s none (Event.freeInner o :: (if x.cap > 0 then [Event.exportBuf x.buf] else []))
             (setH (setI s o { x with live := false }) h none) none :=
           ((trans_steal hx hl).trans (trans_heldExport _ x.buf x.cap)).then_quiet (fun _ => rfl) (Nat.le_refl _)
         exact ⟨t, t⟩
